@@ -143,13 +143,15 @@ def build(ev, ref, t_us, server_side=False, conn=None, queue=None, decor=None):
     if k == 'get_registry':
         sent, iface, oid, name = True, 'wl_display', 1, 'get_registry'
         exp['target'] = ref.label(1)
-        ref.create(REGISTRY_ID, 'wl_registry', t_us)
-        args = [['new', 'wl_registry', REGISTRY_ID]]
-        exp['args'] = [('new', ref.label(REGISTRY_ID))]
+        rid = getattr(ref, 'registry_id', REGISTRY_ID)
+        ref.create(rid, 'wl_registry', t_us)
+        args = [['new', 'wl_registry', rid]]
+        exp['args'] = [('new', ref.label(rid))]
     elif k == 'bind':
         _, cid, t = ev
-        sent, iface, oid, name = True, 'wl_registry', REGISTRY_ID, 'bind'
-        exp['target'] = ref.label(REGISTRY_ID)
+        rid = getattr(ref, 'registry_id', REGISTRY_ID)
+        sent, iface, oid, name = True, 'wl_registry', rid, 'bind'
+        exp['target'] = ref.label(rid)
         ref.create(cid, t, t_us)
         args = [['int', 9], ['str', t], ['int', 1], ['new', None, cid]]
         exp['args'] = [('int', None), ('str', None), ('int', None), ('new', ref.label(cid))]
